@@ -597,6 +597,18 @@ fn c02(tier: &str) -> i32 {
     rep.finish()
 }
 
+struct JobTimer(String, std::time::Instant);
+impl Drop for JobTimer {
+    fn drop(&mut self) {
+        if std::env::var("VERIF_DEBUG_TIMES").is_ok() {
+            eprintln!("TIME {} {:.1}s", self.0, self.1.elapsed().as_secs_f64());
+        }
+    }
+}
+fn scopeguard_print(name: String, t: std::time::Instant) -> JobTimer {
+    JobTimer(name, t)
+}
+
 fn c11check(tier: &str) -> i32 {
     let mut rep = Report::new("C11", tier, "model_checking");
     rep.rule = "lock-step product search over pairs (never-restarted, shadow) of one member on SQLite; restart of the shadow enabled in every pair state (= every subset of restart positions of every explored history); per edge: equal result kinds; per pair state: equal observable fingerprint and equal database dump; distinct = distinct (action class, results, shadow restarted since last agreement)".into();
@@ -610,7 +622,17 @@ fn c11check(tier: &str) -> i32 {
         v.extend(families::chains(2, 2));
         v.extend(families::leaves());
     }
+    // a commit the group refuses (a non-admin's rename) is offered somewhere in the history: what a refusal leaves behind
+    // must not change how a later race is resolved after a restart (scenario name suffix "+refused-commit")
+    for (sc, c) in families::c01_quick().into_iter().take(if tier == "quick" { 1 } else { 3 }) {
+        let mut sc = sc;
+        sc.name = format!("{}+refused-commit", sc.name);
+        v.push((sc, c));
+    }
     let jobs: Vec<(scenario::Scenario, bool)> = match std::env::var("VERIF_ONLY") { Ok(f) => v.into_iter().filter(|j| j.0.name.contains(&f)).collect(), Err(_) => v };
+    // longest first
+    let mut jobs = jobs;
+    jobs.sort_by_key(|j| std::cmp::Reverse(j.0.name.contains("deep-rollback") as u8 + j.0.name.contains("refused") as u8));
     let next = std::sync::atomic::AtomicUsize::new(0);
     let out = std::sync::Mutex::new(Vec::new());
     let max_pairs = if tier == "quick" { 1500 } else { 20000 };
@@ -622,14 +644,32 @@ fn c11check(tier: &str) -> i32 {
                     break;
                 }
                 let mut r = Report::new("C11", tier, "model_checking");
+                let t_job = std::time::Instant::now();
+                let _timer = scopeguard_print(jobs[i].0.name.clone(), t_job);
                 match scenario::build_world(&jobs[i].0, lab::Bk::Sqlite) {
-                    Ok(w) => {
-                        let members: Vec<String> = if tier == "quick" { vec!["Z".into(), "B".into()] } else { w.initial.keys().cloned().collect() };
-                        for m in members {
-                            if w.initial.contains_key(&m) {
-                                c11::explore_pairs(&w, &m, explore::Regime::Causal, max_pairs, &mut r);
-                                c11::linear_restarts(&w, &m, &mut r);
+                    Ok(mut w) => {
+                        if w.sc.name.ends_with("+refused-commit") {
+                            hostile_commit_hook(&mut w);
+                        }
+                        let w = w;
+                        let members: Vec<String> = if tier == "quick" { if w.sc.name.starts_with("deep-rollback") { vec!["Z".into()] } else { vec!["Z".into(), "B".into()] } } else { w.initial.keys().cloned().collect() };
+                        // the members of one world side by side (the deepest scenario would otherwise decide the wall time)
+                        let parts: std::sync::Mutex<Vec<Report>> = std::sync::Mutex::new(Vec::new());
+                        std::thread::scope(|s2| {
+                            for m in &members {
+                                if w.initial.contains_key(m) {
+                                    let (w, parts) = (&w, &parts);
+                                    s2.spawn(move || {
+                                        let mut rm = Report::new("C11", tier, "model_checking");
+                                        c11::explore_pairs(w, m, explore::Regime::Causal, max_pairs, &mut rm);
+                                        c11::linear_restarts(w, m, &mut rm);
+                                        parts.lock().unwrap().push(rm);
+                                    });
+                                }
                             }
+                        });
+                        for rm in parts.into_inner().unwrap() {
+                            r.merge(rm);
                         }
                     }
                     Err(e) => r.machinery_errors.push(format!("scenario {}: {}", jobs[i].0.name, e.0)),
